@@ -30,7 +30,10 @@ class FilenameData(Data):
 
     def __init__(self, data_type: DataType, file_name=None, **kwargs):
         super().__init__(data_type, file_name=file_name, **kwargs)
-        self._public = False
+
+        # file data are hidden by default; keep a value given by the caller or the file
+        if "public" not in kwargs and "Public" not in kwargs:
+            self._public = False
 
     @classmethod
     def primitive_type(cls) -> PrimitiveTypeEnum:
